@@ -418,6 +418,9 @@ def main(tier="quick", seed=0, procs=None, only=None):
     try:
         native_layer_args(run)
         float_part(run, seed)
+        from ..rtc import flagindep
+        from ..catalog import nn_ops as _nn_ops
+        flagindep.run_part(run, _nn_ops.all_cases("quick"))
     except Exception as e:
         run.error("native layer-argument / float part failed", e)
     return run.finish()
